@@ -8,7 +8,7 @@ exactly the entry's contribution, the reported TxEntryInfo is the entry's aggreg
 """
 from mir2smt.ob import *
 from mir2smt import terms as T
-from mir2smt.exec import OpaqueV, IntV, BoolV, AggV, EnumV, RefV, UNIT, Exec, mk_option
+from mir2smt.exec import OpaqueV, IntV, BoolV, AggV, EnumV, RefV, UNIT, Exec, Stop, mk_option
 from mir2smt import envlib as E
 from mir2smt.builtins import deref
 from mir2smt.srcinfo import struct_fields
@@ -453,6 +453,97 @@ def m7_counters(S):
         S.witness(ctx, ob, f"stat_{nm}_reach", [], T.and_(T.gt(size.t, 2), T.gt(cyc.t, 2), T.ne(got["total_tx_size"], pt["total_tx_size"]), T.ne(got["total_tx_cycles"], pt["total_tx_cycles"])))
 
 
-OBLIGATIONS = [m1_aggregate_steps, m2_initial_and_reset, m3_score_key, m4_evict_key, m5_reported_info, m6_score_key_transitive, m7_counters]
+def m8_links_recorded_for_a_new_entry(S):
+    """`PoolMap::record_entry_descendants` (run for every entry that enters the pool; children exist when a parent is (re-)added after its dependants, e.g. a transaction detached by
+    a reorganisation): for each output of the new entry BOTH the pooled transactions that read it as a cell dep AND the pooled transaction that consumes it become children
+    (one output, reader / consumer presence symbolic); every child gets the new entry as parent, the entry's own children set receives them all, and the aggregates are propagated:
+    descendants learn the new ancestor (`update_descendants_index_key(.., Add)`) iff there are children, ancestors always learn the new descendant.
+    `update_ancestors_index_key` / `update_descendants_index_key`: every ancestor (descendant) returned by the link closure is moved by exactly the entry's own weight via
+    add_descendant_weight / add_ancestor_weight (Remove: the sub_ variants) -- the per-entry steps of C11.m1."""
+    from mir2smt.exec import ListV
+    ob = "C11.m8"
+    f = [x for x in S.prog.funcs if x.kind == "fn" and x.short == "record_entry_descendants" and "component/pool_map.rs" in x.name and "{closure" not in x.name]
+    if len(f) != 1:
+        raise Inconclusive(f"record_entry_descendants: {len(f)} candidates")
+    ctx = S.ctx(unwind=8)
+    ctx.uninterpreted_unknown_calls = True
+    has_reader = ctx.bool("output0_is_read_as_cell_dep_by_a_pooled_tx")
+    has_consumer = ctx.bool("output0_is_consumed_by_a_pooled_tx")
+    log = []
+
+    def nmv(ex, v):
+        v = deref(ex, v)
+        if isinstance(v, ListV):
+            return "{" + ",".join(sorted(nmv(ex, x) for x in v.items)) + "}"
+        return getattr(v, "name", None) or type(v).__name__
+
+    def lg(tag, ret=None):
+        def h(ex, c, a, d):
+            log.append((tag, [nmv(ex, x) for x in a[1:]], list(ex.pc)))
+            return ret(ex, a, d) if ret else UNIT
+        return h
+    from mir2smt.builtins import _wr
+
+    def set_extend(ex, c, a, d):
+        s_, o = deref(ex, a[0]), deref(ex, a[1])
+        if not isinstance(s_, ListV) or not isinstance(o, ListV):
+            raise Stop("extend of an unmodelled set")
+        _wr(ex, a[0], ListV(tuple(s_.items) + tuple(x for x in o.items if x not in s_.items), s_.ty))
+        if s_.ty == "links_children":
+            log.append(("entry_children_extend", [nmv(ex, a[1])], list(ex.pc)))
+        return UNIT
+
+    def set_insert(ex, c, a, d):
+        s_ = deref(ex, a[0])
+        x = deref(ex, a[1])
+        if not isinstance(s_, ListV):
+            raise Stop("insert into an unmodelled set")
+        new_ = x not in s_.items
+        if new_:
+            _wr(ex, a[0], ListV(tuple(s_.items) + (x,), s_.ty))
+        return BoolV(new_)
+    ctx.env = list(E.LOGGING_OFF) + [
+        (E.rx(r"TxEntry::proposal_short_id$"), lambda ex, c, a, d: OpaqueV("this_id", d)),
+        (E.rx(r"TxEntry::transaction$"), lambda ex, c, a, d: ex.ctx.ref_to(OpaqueV("this_tx", "TransactionView"))),
+        (E.rx(r"TransactionView::output_pts$"), lambda ex, c, a, d: ListV((OpaqueV("out0", "OutPoint"),), "Vec<OutPoint>")),
+        (E.rx(r"HashSet::<ProposalShortId(, \w+)?>::new$"), lambda ex, c, a, d: ListV((), "children")),
+        (E.rx(r"Edges::get_deps_ref$"), lambda ex, c, a, d: mk_option(has_reader.t, ex.ctx.ref_to(ListV((OpaqueV("reader", "ProposalShortId"),), "deps")), d)),
+        (E.rx(r"Edges::get_input_ref$"), lambda ex, c, a, d: mk_option(has_consumer.t, ex.ctx.ref_to(OpaqueV("consumer", "ProposalShortId")), d)),
+        (E.rx(r"Option::<&HashSet<.*>>::cloned$|Option::<&ProposalShortId>::cloned$"), lambda ex, c, a, d: (lambda o: EnumV(o.disc, tuple((k, tuple(deref(ex, x) for x in fs)) for k, fs in o.payloads), d))(deref(ex, a[0]))),
+        (E.rx(r"<HashSet<ProposalShortId(, \w+)?> as Extend<.*>>::extend"), set_extend),
+        (E.rx(r"HashSet::<ProposalShortId(, \w+)?>::insert$"), set_insert),
+        (E.rx(r"HashSet::<ProposalShortId(, \w+)?>::is_empty$"), lambda ex, c, a, d: BoolV(len(deref(ex, a[0]).items) == 0)),
+        (E.rx(r"<&HashSet<ProposalShortId(, \w+)?> as IntoIterator>::into_iter$"), lambda ex, c, a, d: AggV((deref(ex, a[0]), IntV(0, "usize")), "ListIterRef")),
+        (E.rx(r"ProposalShortId as Clone>::clone$"), lambda ex, c, a, d: deref(ex, a[0])),
+        (E.rx(r"TxLinksMap::add_parent$"), lg("add_parent", lambda ex, a, d: mk_option(True, BoolV(True), d))),
+        (E.rx(r"HashMap::<ProposalShortId, TxLinks(, \w+)?>::get_mut"), lambda ex, c, a, d: (log.append(("links_of", [nmv(ex, a[1])], list(ex.pc))), mk_option(True, ex.ctx.ref_to(AggV((OpaqueV("own_parents", "?"), ListV((), "links_children")), "TxLinks")), d))[1]),
+        (E.rx(r"PoolMap::update_descendants_index_key$"), lg("update_descendants")),
+        (E.rx(r"PoolMap::update_ancestors_index_key$"), lg("update_ancestors")),
+    ] + list(E.LIST_ADAPTORS)
+    lf = struct_fields("tx-pool/src/component/links.rs", "TxLinks")
+    if lf != ["parents", "children"]:
+        raise Inconclusive(f"TxLinks layout: {lf}")
+    pm = OpaqueV("pm", "PoolMap")
+    ps = S.run(ctx, f[0], [ctx.ref_to(pm), ctx.ref_to(OpaqueV("entry", "TxEntry"))])
+    S.prove(ctx, ob, "record_no_panic", [], T.not_(cond_of(panics(ps))))
+
+    def when(tag, pred=lambda a: True):
+        return T.or_(*[T.and_(*pc) for t, a, pc in log if t == tag and pred(a)])
+    S.prove(ctx, ob, "dep_reader_becomes_a_child_iff_it_reads_the_output", [], T.iff(when("add_parent", lambda a: a[0] == "reader"), has_reader.t))
+    S.prove(ctx, ob, "consumer_becomes_a_child_iff_it_spends_the_output_even_when_a_reader_exists", [], T.iff(when("add_parent", lambda a: a[0] == "consumer"), has_consumer.t))
+    S.prove(ctx, ob, "every_child_gets_this_entry_as_parent", [], bool(all(a[1] == "this_id" for t, a, _ in log if t == "add_parent")))
+    both = T.and_(has_reader.t, has_consumer.t)
+    S.prove(ctx, ob, "own_children_set_receives_all_children", [], T.and_(
+        T.implies(both, when("entry_children_extend", lambda a: a[0] == "{consumer,reader}")),
+        T.implies(T.and_(has_reader.t, T.not_(has_consumer.t)), when("entry_children_extend", lambda a: a[0] == "{reader}")),
+        T.implies(T.and_(T.not_(has_reader.t), has_consumer.t), when("entry_children_extend", lambda a: a[0] == "{consumer}"))))
+    S.prove(ctx, ob, "own_links_are_looked_up_under_this_id", [], bool(all(a[0] == "this_id" for t, a, _ in log if t == "links_of")))
+    S.prove(ctx, ob, "descendants_learn_the_new_ancestor_iff_there_are_children", [], T.iff(when("update_descendants", lambda a: a[0] == "entry"), T.or_(has_reader.t, has_consumer.t)))
+    anc_all = when("update_ancestors", lambda a: a[0] == "entry")
+    S.prove(ctx, ob, "ancestors_always_learn_the_new_descendant_on_every_returning_path", [], T.iff(anc_all, T.or_(*[p.cond() for p in returns(ps)])))
+    S.witness(ctx, ob, "reach_both_kinds_of_children", [], T.and_(both, anc_all))
+
+
+OBLIGATIONS = [m1_aggregate_steps, m2_initial_and_reset, m3_score_key, m4_evict_key, m5_reported_info, m6_score_key_transitive, m7_counters, m8_links_recorded_for_a_new_entry]
 TECHNIQUE = "symbolic execution of rustc MIR -> integer-theory SMT (cvc5 + z3); counterexamples replayed in a native build of the same source files"
 DESIGN_REF = "DESIGN.md section 4 (C11)"
